@@ -40,17 +40,23 @@ def lazy_cfg(observed, maxpre, maxacc, hist, invs):
     )
 
 
-def scan_cfg(tmax, emax, racy):
+def scan_cfg(tmax, emax, racy, rep=False):
     return (
-        "SPECIFICATION Spec\nCONSTANTS\n TMax = %d\n EMax = %d\n Racy = %s\n" % (tmax, emax, "TRUE" if racy else "FALSE")
+        "SPECIFICATION Spec\nCONSTANTS\n TMax = %d\n EMax = %d\n Racy = %s\n Representatives = %s\n"
+        % (tmax, emax, "TRUE" if racy else "FALSE", "TRUE" if rep else "FALSE")
         + "INVARIANT TypeOK\nINVARIANT ScheduleIndependent\nINVARIANT DisjointWrites\nINVARIANT OnParallelNotSelected\nCHECK_DEADLOCK FALSE\n"
     )
 
 
 def model_checks(ctx, thorough):
     # schedules: every interleaving of the parallel scan
-    for tmax, emax in ([(3, 3), (2, 4)] if thorough else [(3, 3)]):
-        ctx.tlc_ok("LatScan", scan_cfg(tmax, emax, False), what="prange scan, sound variant, T<=%d E<=%d: all interleavings" % (tmax, emax), timeout=1500)
+    for tmax, emax, rep in ([(3, 3, False), (3, 4, True)] if thorough else [(3, 3, False)]):
+        ctx.tlc_ok(
+            "LatScan",
+            scan_cfg(tmax, emax, False, rep),
+            what="prange scan, sound variant, T<=%d E<=%d, %s: all interleavings" % (tmax, emax, "one z-class pair per case of the sign test" if rep else "all nine z-class pairs per edge"),
+            timeout=1500,
+        )
     r = ctx.tlc("LatScan", scan_cfg(2, 2, True), what="prange scan, racy variant (shared counter): TLC must find the lost update")
     if r.violated != "ScheduleIndependent":
         raise Machinery("LatScan does not distinguish the racy scan: %r" % r)
@@ -220,12 +226,13 @@ def build_cases(ctx, rng, thorough, idx_cases, behaviours, sims):
                 model_stores=[sorted(s[2]) for s in b["hist"] if s[0] == "mat"] + [sorted(sl[3]), sorted(sl[4])] + [sorted(s[3]) for s in b["hist"] if s[0] == "acc"],
             )
     # F. the scan on a grid large enough for the threads to share it: regular lat-lon quads
-    ll = {"t": "latlon", "nx": 36, "ny": 16, "dlat": 10, "seed": 5}
+    ll = {"t": "latlon", "nx": 72, "ny": 32, "dlat": 5, "seed": 5}
+    rep_threads = X.THREADS + X.THREADS[::-1] + X.THREADS
     for j in range(16 if thorough else 6):
         for mode in ("gap", "at"):
-            add("latlon:faces_at:%s:%d" % (mode, j), ll, provs[j % 2], {"t": "lat", "kind": "face", "pick": j * 3 + 1, "mode": mode, "faces_only": True}, threads=X.THREADS)
+            add("latlon:faces_at:%s:%d" % (mode, j), ll, provs[j % 2], {"t": "lat", "kind": "face", "pick": j * 3 + 1, "mode": mode, "faces_only": True}, threads=rep_threads)
             if j % 3 == 0:
-                add("latlon:xsec:%s:%d" % (mode, j), ll, provs[j % 2], {"t": "lat", "kind": "face", "pick": j * 3 + 1, "mode": mode}, threads=X.THREADS, data=data_spec(j))
+                add("latlon:xsec:%s:%d" % (mode, j), ll, provs[j % 2], {"t": "lat", "kind": "face", "pick": j * 3 + 1, "mode": mode}, threads=rep_threads, data=data_spec(j))
     # G. sources read from an in-memory UGRID dataset that ships its edge table
     cub = catalog.entries(name="cuboctahedron", rot=0, cut=0)[0]
     for j, prov in enumerate(["ugrid", "ugrid_ec", "ugrid_plain", "ugrid", "ugrid_ec", "ugrid_plain"]):
